@@ -22,6 +22,8 @@ pub struct Config {
     pub cache_size: usize,
     pub nkeys: usize,
     pub vlens: Vec<usize>,
+    /// transition tours: abstract key -> corpus index, abstract value -> value id
+    pub sel: Option<(Vec<u32>, Vec<u32>)>,
 }
 
 impl Config {
@@ -33,12 +35,23 @@ impl Config {
             cache_size: 1 << 20,
             nkeys: 64,
             vlens: default_vlens(512),
+            sel: None,
+        }
+    }
+
+    pub fn ctx(&self) -> Ctx {
+        let cx = Ctx::new(self.seed, self.page_size, self.nkeys, self.vlens.clone());
+        match &self.sel {
+            Some((k, v)) => cx.with_selection(k.clone(), v.clone()),
+            None => cx,
         }
     }
 
     pub fn to_json(&self) -> J {
         json!({"seed": self.seed, "page_size": self.page_size, "region_size": self.region_size.unwrap_or(0),
-               "cache_size": self.cache_size, "nkeys": self.nkeys, "vlens": self.vlens})
+               "cache_size": self.cache_size, "nkeys": self.nkeys, "vlens": self.vlens,
+               "key_sel": self.sel.as_ref().map(|s| s.0.clone()).unwrap_or_default(),
+               "val_sel": self.sel.as_ref().map(|s| s.1.clone()).unwrap_or_default()})
     }
 
     pub fn from_json(j: &J) -> Config {
@@ -49,6 +62,10 @@ impl Config {
             cache_size: j["cache_size"].as_u64().unwrap() as usize,
             nkeys: j["nkeys"].as_u64().unwrap() as usize,
             vlens: j["vlens"].as_array().unwrap().iter().map(|x| x.as_u64().unwrap() as usize).collect(),
+            sel: {
+                let f = |k: &str| -> Vec<u32> { j[k].as_array().map(|a| a.iter().map(|x| x.as_u64().unwrap() as u32).collect()).unwrap_or_default() };
+                if f("key_sel").is_empty() { None } else { Some((f("key_sel"), f("val_sel"))) }
+            },
         }
     }
 }
@@ -765,7 +782,7 @@ impl Exec {
     }
 
     pub fn with_store(cfg: Config, store: Arc<Store>) -> Exec {
-        let cx = Ctx::new(cfg.seed, cfg.page_size, cfg.nkeys, cfg.vlens.clone());
+        let cx = cfg.ctx();
         let db = builder(&cfg).create_with_backend(store.backend()).expect("create");
         Exec {
             cfg,
